@@ -3,18 +3,36 @@
 // Contracts for package decoders, checked by /verif/govc. Comment-only: no code.
 package decoders
 
-// Interface-level contract of a decoder: scan_ok counts the entries handed out; an entry comes without an error.
+// Interface-level contract of a decoder: scannedBy counts the entries it has handed out, limitOf is its configured limit.
 //@ event scan_ok
+//@ global scannedBy map[Decoder]int
+//@ global limitOf map[Decoder]int
 //@ iface Decoder.Scan
 //@ ensures ev(scan_ok) == old(ev(scan_ok)) + ite(result1 == nil, 1, 0)
+//@ ensures scannedBy[self] == old(scannedBy[self]) + ite(result1 == nil, 1, 0)
 //@ ensures imp(result1 == nil, result0 != nil)
-//@ modifies ev(scan_ok)
+//@ ensures [limit-is-on-entries-handed-out] imp(result1 == ErrAmmoLimit, limitOf[self] != 0 && scannedBy[self] == limitOf[self])
+//@ modifies ev(scan_ok), scannedBy[self]
 
 //@ iface Decoder.LoadAmmo
 //@ ensures forall(k, 0, len(result0), result0[k] != nil)
 
 //@ iface DecodedAmmo.Tag
 //@ pure
+
+// Preloading reads exactly one full pass, whatever limit and passes are configured, and keeps every entry in scan order.
+//@ func (d *protoDecoder) LoadAmmo
+//@ props C14 C08
+//@ at call scan assert [one-full-pass-without-limit] d.config.Passes == 1 && d.config.Limit == 0 && arg(a0) == ctx0
+//@ loop 0 invariant d.config.Passes == 1 && d.config.Limit == 0 && forall(k, 0, len(result), result[k] != nil)
+//@ loop 0 invariant [error-ends-the-scan] imp(calls(scan) > 0, err == result_of(scan, 1)) && imp(calls(scan) == 0, err == nil)
+//@ loop 0 step [every-scanned-entry-is-kept-in-order] imp(result_of(scan, 0) != nil, len(result) == iter(len(result)) + 1 && result[len(result)-1] == result_of(scan, 0)) && imp(result_of(scan, 0) == nil, len(result) == iter(len(result)))
+//@ loop 0 step [kept-entries-stay] forall(k, 0, iter(len(result)), result[k] == iter(result)[k])
+//@ ensures [configuration-restored] d.config.Passes == old(d.config.Passes) && d.config.Limit == old(d.config.Limit)
+//@ ensures [only-the-end-of-the-pass-is-a-clean-end] imp(result1 == nil, calls(scan) > 0 && errors.Is(result_of(scan, 1), ErrPassLimit))
+//@ ensures [failure-is-reported] imp(calls(scan) > 0 && !errors.Is(result_of(scan, 1), ErrPassLimit), result1 == result_of(scan, 1))
+//@ ensures forall(k, 0, len(result0), result0[k] != nil)
+//@ modifies d.config.Passes, d.config.Limit
 
 //@ func (d *jsonlineDecoder) scanAmmos
 //@ props C08 C07
